@@ -23,8 +23,11 @@ fn plain(db: &Db, rng: &mut Rng) -> String {
 }
 
 fn other(db: &Db, rng: &mut Rng) -> String {
-    match rng.below(26) {
+    match rng.below(28) {
         // the clock is read on every query, wherever `now` stands in it
+        // a result that is not a finite number is a result like any other: `ans` denotes it
+        26 => (*rng.pick(&["asin(2)", "ln(-1)", "exp(1000)", "-exp(1000)", "ln(0)", "acos(5) + 1"])).into(),
+        27 => "ans".into(),
         24 => (*rng.pick(&["sqrt(((now - #2000-01-01 00:00:00 +00:00#)/s)^2)", "hypot((now - #2000-01-01 00:00:00 +00:00#)/s, 0)", "exp(ln((now - #2000-01-01 00:00:00 +00:00#)/s))"])).into(),
         25 => "now".into(),
         // a conversion that only changes the notation of a *new* number must not touch `ans`
@@ -70,12 +73,19 @@ pub fn run(o: &Opts) -> i32 {
     let fixed: Vec<Vec<&str>> = vec![
         vec!["1+1", "3 hours", "ans"], vec!["0", "1 -> ans;ans"], vec!["ans"], vec!["5", "nosuch", "ans"], vec!["5", "meter", "ans"],
         vec!["5", "10 m -> ft", "ans"], vec!["2 m", "ans^2", "ans -> ft^2", "ans"],
+        vec!["2 m", "asin(2)", "ans"], vec!["3", "ln(-1)", "ans + 1"], vec!["7 kg", "exp(1000)", "ans"], vec!["4", "ln(0)", "ans", "ans * 0"],
     ];
     for s in &fixed {
         emit("reset".into(), json!({"k": "reset"}));
         emit("regdigest".into(), json!({"k": "digest"}));
         for q in s { emit(req_line(q), json!({"k": "q", "text": q, "flag": true})); total += 1; }
         emit("regdigest".into(), json!({"k": "digest"}));
+    }
+    // the caller's clock: wherever a previous query or the caller left it, the next query reads the system clock
+    for secs in [32_000_000_000i64, 1_000_000, -5_000_000_000, 0, 1_900_000_000] {
+        emit("reset".into(), json!({"k": "reset"}));
+        emit(format!("settime {}", secs), json!({"k": "settime"}));
+        for q in ["hypot((now - #2000-01-01 00:00:00 +00:00#)/s, 0)", "1 + 1", "sqrt(((now - #2000-01-01 00:00:00 +00:00#)/s)^2)"] { emit(req_line(q), json!({"k": "q", "text": q, "flag": true})); total += 1; }
     }
     for k in 0..nsess {
         emit("reset".into(), json!({"k": "reset"}));
